@@ -38,6 +38,7 @@ def main():
     ap = argparse.ArgumentParser()
     ap.add_argument("--revert", action="append", default=[])
     ap.add_argument("--patch", action="append", default=[])
+    ap.add_argument("--sub", action="append", default=[], help="relpath:::old:::new (exactly one occurrence unless :::N given)")
     ap.add_argument("--tier", default="quick")
     ap.add_argument("--keep", action="store_true")
     ap.add_argument("props", nargs="+")
@@ -56,6 +57,20 @@ def main():
             if r.returncode != 0:
                 print("could not apply", p)
                 return 3
+        for sub in a.sub:
+            parts = sub.split(":::")
+            rel, old, new = parts[0], parts[1], parts[2]
+            path = os.path.join(d, rel if "/" in rel else os.path.join("src/kneeliverse", rel))
+            src = open(path).read()
+            cnt = src.count(old)
+            want = int(parts[3]) if len(parts) > 3 else 1
+            if cnt < 1 or (want == 1 and cnt != 1):
+                print(f"substitution matched {cnt} times in {rel}: {old!r}")
+                return 3
+            src = src.replace(old, new) if want != 1 else src.replace(old, new, 1)
+            open(path, "w").write(src)
+            import py_compile
+            py_compile.compile(path, doraise=True)
         env = dict(os.environ)
         env["KVERIF_REPO"] = d
         env["KVERIF_EVIDENCE_DIR"] = os.path.join(d, "_evidence")
